@@ -14,6 +14,7 @@ import re
 import signal
 
 from harness.engine import tlc as T
+from harness.engine.core import run_extension
 
 SPEC = os.path.join(T.SPECS, "Dialogue")
 NOPAT = {"ci": True, "alts": ["y"], "whole": False, "anch": True, "dflt": True}
@@ -900,7 +901,7 @@ def run(ctx):
     # ---- extension beyond the listed property: input / output streams and small utilities (specs/Streams; A-clauses only)
     from harness.props import ext_streams
 
-    ext_streams.run_ext(ctx)
+    run_extension(ctx, "streams", ext_streams.run_ext)
 
 
 def replay(ctx, path):
